@@ -7,7 +7,7 @@ REQUIRED_BRANCHES = [
     "tokx-unicode", "tokx-web", "tokx-reword", "tokx-renonspace", "tokx-excletter", "tokx-excws", "tokx-replayed",
     "flt-ngram", "flt-edge", "flt-shingle", "flt-trunc", "flt-length", "flt-unique", "flt-stop", "flt-kwmark",
     "flt-elision", "flt-apos", "flt-dict", "flt-camel", "flt-cjk", "flt-reverse",
-    "tf", "doc", "final-tokens", "final-empty", "mq-found", "malformed-input", "params-out-of-range",
+    "tf", "doc", "conc-same", "concp-same", "final-tokens", "final-empty", "mq-found", "malformed-input", "params-out-of-range",
     # all 24 bundled analyzers
     "an:keyword", "an:simple", "an:standard", "an:web", "an:ar", "an:cjk", "an:ckb", "an:da", "an:de", "an:en", "an:es",
     "an:fa", "an:fi", "an:fr", "an:hi", "an:hu", "an:it", "an:nl", "an:no", "an:pt", "an:ro", "an:ru", "an:sv", "an:tr",
